@@ -475,13 +475,26 @@ func c07ws(p *Program, r *Report, rule string) {
 	})
 	// Reader / Writer return the per-connection objects
 	if fn := p.Func("Conn.reader"); fn != nil {
-		p.forAllPaths(r, rule+".reader", fn, "returns the connection's own reader", Opts{}, "reader() returns c.msgReader (never a pooled object)", func(pa *Path) (bool, string) {
-			if pa.End == "return" && retErr(pa) == "nil" && pa.Ret[1].Key() != "Conn.msgReader" {
-				return false, "returns " + pa.Ret[1].Key()
+		p.forAllPaths(r, rule+".reader", fn, "returns the connection's own reader", Opts{}, "reader() returns a handle created by this call whose only reader is c.msgReader (never a pooled object, never the shared reader itself: F37)", func(pa *Path) (bool, string) {
+			if pa.End != "return" || retErr(pa) != "nil" {
+				return true, ""
 			}
-			return true, ""
+			k := stripConvAll(pa.Ret[1]).Key()
+			if k == "Conn.msgReader" {
+				return false, "returns the shared Conn.msgReader: the handle of a finished message would lock under that message's context and read the next message's bytes"
+			}
+			base := strings.TrimPrefix(k, "&")
+			if isLocalAllocKey(base) {
+				for _, e := range pa.Events {
+					if e.Kind == "store" && strings.HasPrefix(e.AddrK, base+".") && e.Val.Key() == "Conn.msgReader" {
+						return true, ""
+					}
+				}
+			}
+			return false, "returns " + k
 		})
 	}
+	cReaderHandle(p, r, rule+".reader.handle")
 	if fn := p.Func("Conn.writer"); fn != nil {
 		p.forAllPaths(r, rule+".writer", fn, "returns the connection's own writer", Opts{}, "writer() returns c.msgWriter, directly or through a handle created by this call whose only writer is c.msgWriter (never a pooled object)", func(pa *Path) (bool, string) {
 			if pa.End != "return" || retErr(pa) != "nil" {
@@ -502,6 +515,70 @@ func c07ws(p *Program, r *Report, rule string) {
 			}
 			return false, "returns " + k
 		})
+	}
+}
+
+// cReaderHandle: what Reader hands out reports the end of its message once and for all: after io.EOF it never calls the
+// shared message reader again (which would wait for the read lock under the finished message's context and return bytes
+// of the next message); before that it forwards exactly once per call and marks the end only on the identity io.EOF.
+func cReaderHandle(p *Program, r *Report, rule string) {
+	fn := p.FuncOpt("msgReaderHandle.Read")
+	if fn == nil {
+		r.Check(rule, "msgReaderHandle.Read", "per-call reader handle", "-", false, "Reader returns a per-call handle with its own end-of-message state", "no msgReaderHandle.Read")
+		return
+	}
+	p.runTable(r, tableSpec{
+		Rule: rule, Fn: fn, Atoms: []Atom{boolAtom("msgReaderHandle.eof")},
+		Classify: func(v Valuation, pa *Path) string {
+			if pa.End != "return" {
+				return pa.End
+			}
+			fw := pa.Calls("msgReader.Read")
+			if len(fw) == 0 {
+				if z, ok := avInt(pa.Ret[0]); ok && z == 0 && pa.Ret[1].Key() == "G:io.EOF" {
+					return "EOF-WITHOUT-FORWARDING"
+				}
+				return "NOT-FORWARDED " + pa.Ret[0].Key() + "," + pa.Ret[1].Key()
+			}
+			if len(fw) != 1 || argKey(fw[0], 0) != "msgReaderHandle.mr" || argKey(fw[0], 1) != "param:p" {
+				return "FORWARDED-ELSEWHERE"
+			}
+			if !keyIs(pa.Ret[0], "call:msgReader.Read@@#0") || !keyIs(pa.Ret[1], "call:msgReader.Read@@#1") {
+				return "RESULT-CHANGED"
+			}
+			set := false
+			for _, e := range pa.Events {
+				if e.Kind == "store" && e.AddrK == "msgReaderHandle.eof" {
+					if b, ok := avBool(e.Val); !ok || !b {
+						return "CLEARS-EOF"
+					}
+					set = true
+				}
+			}
+			isEOF, known := decidedRel(pa, "call:msgReader.Read@@#1", "==", "G:io.EOF")
+			if !known {
+				return "NO-IDENTITY-TEST"
+			}
+			if set != isEOF {
+				return fmt.Sprintf("MARK=%v-ON-EOF=%v", set, isEOF)
+			}
+			return "FORWARDED"
+		},
+		Oracle: func(v Valuation) []string {
+			if v.Bool("msgReaderHandle.eof") {
+				return []string{"EOF-WITHOUT-FORWARDING"}
+			}
+			return []string{"FORWARDED"}
+		},
+		What: "a handle that has reported io.EOF returns (0, io.EOF) without touching the shared reader; one that has not forwards once to its msgReader with the caller's buffer, returns its results unchanged and marks the end exactly when the error is io.EOF",
+	})
+	if f := p.FieldOpt("msgReaderHandle.eof"); f != nil {
+		for _, fa := range p.FieldAccesses(f) {
+			if fa.Write || fa.Addr {
+				fname := p.FuncName(fa.Fn)
+				r.Check(rule, fname, "store msgReaderHandle.eof", p.InstrPos(fa.Instr), fname == "msgReaderHandle.Read", "the end-of-message mark of a reader handle is written only by its Read", fname)
+			}
+		}
 	}
 }
 
